@@ -531,24 +531,52 @@ func workers() int {
 // API mux, child process) is started on the restored data directory and must accept the next event
 // with the next version.
 func nodeLevel(r *ev.Run) {
-	for _, pre := range [][]int{{1}, {2, 1}, {1, 1, 1, 2}} {
-		w, ok := replayPath(r, nil)
-		if !ok {
-			return
-		}
-		for _, k := range pre {
-			w.step(event{Kind: "add", K: k}, true)
-		}
-		w.step(event{Kind: "backup"}, true)
-		w.step(event{Kind: "add", K: 1}, true)
-		bk := w.m.backups[0]
-		backupDir := w.dir + "/backups"
-		w.close()
-		dst, rf := newDir("noderestore"), newDir("noderaft")
+	for pi, pre := range [][]int{{1}, {2}, {2, 1}, {1, 1, 1, 2}} {
 		c := map[string]interface{}{"entriesBeforeBackup": pre}
-		if err := restoreLikeCmd(backupDir, bk.ID, dst); err != nil {
+		// the source is a real server too, so that the applied index stored with the data is the one a
+		// real raft log assigns (the first command of a fresh cluster is not entry 1)
+		sdb, srf := newDir("nodesrc"), newDir("nodesrcraft")
+		src, err := nx.Start(sdb, srf)
+		if err != nil {
+			r.Violation("harness: a fresh server does not start: "+firstLine(err.Error()), c)
+			continue
+		}
+		events := 0
+		post := func(n *nx.Child, k int) (nx.Resp, error) {
+			if k == 1 {
+				body, _ := json.Marshal(protocol.Event{Event: []byte(fmt.Sprintf("node-event-%d", events))})
+				events++
+				return n.HTTP("api", "POST", "/events", body)
+			}
+			var evs [][]byte
+			for j := 0; j < k; j++ {
+				evs = append(evs, []byte(fmt.Sprintf("node-event-%d", events)))
+				events++
+			}
+			body, _ := json.Marshal(protocol.EventsBulk{Events: evs})
+			return n.HTTP("api", "POST", "/events/bulk", body)
+		}
+		ok := true
+		for _, k := range pre {
+			if res, err := post(src, k); err != nil || res.Status != 201 {
+				ok = false
+			}
+		}
+		atBackup := events
+		if res, err := src.HTTP("mgmt", "POST", "/backup", nil); err != nil || res.Status >= 300 {
+			ok = false
+		}
+		if res, err := post(src, 1); err != nil || res.Status != 201 {
+			ok = false
+		}
+		src.Close()
+		if !ok {
+			r.Violation("harness: the source server of a backup misbehaves", c)
+			continue
+		}
+		dst, rf := newDir("noderestore"), newDir("noderaft")
+		if err := restoreLikeCmd(sdb+"/backups", 1, dst); err != nil {
 			r.Violation("restoring an existing backup fails", c)
-			w.destroy()
 			continue
 		}
 		child, err := nx.Start(dst, rf)
@@ -556,8 +584,13 @@ func nodeLevel(r *ev.Run) {
 		if err != nil {
 			r.Violation("a fresh server cannot be started on a restored backup: "+firstLine(err.Error()), c)
 		} else {
-			body, _ := json.Marshal(protocol.Event{Event: []byte("the next event")})
-			res, err := child.HTTP("api", "POST", "/events", body)
+			st, _ := child.Do(nx.Req{Op: "state"})
+			if int(st.Version) != atBackup {
+				c["got"], c["want"] = st.Version, atBackup
+				r.Violation("a fresh server started on a restored backup does not hold exactly the events of the backup", c)
+			}
+			events = atBackup
+			res, err := post(child, 1)
 			var snap protocol.Snapshot
 			switch {
 			case err != nil:
@@ -568,18 +601,22 @@ func nodeLevel(r *ev.Run) {
 			case res.Status != 201 || json.Unmarshal(res.Body, &snap) != nil:
 				c["status"] = res.Status
 				r.Violation("a fresh server started on a restored backup refuses the next event", c)
-			case snap.Version != uint64(bk.Events):
-				c["got"], c["want"] = snap.Version, bk.Events
+			case snap.Version != uint64(atBackup):
+				c["got"], c["want"] = snap.Version, atBackup
 				r.Violation("a fresh server started on a restored backup does not assign the version after the backup's to the next event", c)
 			default:
-				r.Outcome(fmt.Sprintf("fresh server on a backup of %d events accepted the next event", bk.Events))
+				// and the one after that
+				if res2, err := post(child, 2); err != nil || res2.Status != 201 {
+					r.Violation("a fresh server started on a restored backup refuses a later insertion", c)
+				}
+				r.Outcome(fmt.Sprintf("fresh server on a backup of %d events accepted the next events", atBackup))
 			}
 			child.Kill()
 		}
-		os.RemoveAll(dst)
-		os.RemoveAll(rf)
-		w.destroy()
-		r.Distinct(fmt.Sprint("node restore ", pre))
+		for _, d := range []string{dst, rf, sdb, srf} {
+			os.RemoveAll(d)
+		}
+		r.Distinct(fmt.Sprint("node restore ", pi, pre))
 	}
 }
 
